@@ -175,4 +175,4 @@ def run(ctx):
     global CTX
     CTX = ctx
     names = sched.op_names(groups=("core", "storage", "loop"), weights={"make_instr": 0})
-    run_cases(ctx, case_strategy(names), guarded(ctx, check_case), ctx.budget(320, 30000))
+    run_cases(ctx, case_strategy(names), guarded(ctx, check_case), ctx.budget(480, 30000))
